@@ -214,3 +214,18 @@ def comps_target(fn, lc):
         if isinstance(n, ast.Assign) and n.value is lc:
             return n.targets[0]
     return lc
+
+
+def parse_result_is_private(ctx):
+    """Parser.parse files its results in a dictionary it creates itself (a parameter default or an attribute would keep the
+    entries of earlier calls)"""
+    idx = get_index(ctx.env)
+    fi = idx.func("Parser.parse")
+    fn = fi.node
+    rets = [n for n in ast.walk(fn) if isinstance(n, ast.Return) and isinstance(n.value, ast.Name)]
+    ctx.need(rets, "Parser.parse: returned name not found")
+    name = rets[0].value.id
+    fresh = any(isinstance(n, (ast.Assign, ast.AnnAssign)) and isinstance(n.targets[0] if isinstance(n, ast.Assign) else n.target, ast.Name)
+                and (n.targets[0] if isinstance(n, ast.Assign) else n.target).id == name and n.value is not None and U(n.value) in ("dict()", "{}") for n in ast.walk(fn))
+    params = {a.arg for a in fn.args.args + fn.args.kwonlyargs}
+    ctx.check("Parser.parse returns a dictionary created by this call", fresh and name not in params, f"{name} = dict() inside parse()", f"fresh={fresh}, parameter={name in params}", fn_where(idx, fi))
